@@ -200,7 +200,7 @@ func (f Union) remove(value any) (out any, changed bool) {
 	case []any:
 		ns := make([]any, 0, len(tv))
 		for i, v := range tv {
-			if f.hasN(int64(i)) {
+			if f.hasN(int64(i)) || f.hasN(int64(i-len(tv))) {
 				changed = true
 			} else {
 				ns = append(ns, v)
@@ -219,7 +219,7 @@ func (f Union) remove(value any) (out any, changed bool) {
 	case gen.Array:
 		ns := make(gen.Array, 0, len(tv))
 		for i, v := range tv {
-			if f.hasN(int64(i)) {
+			if f.hasN(int64(i)) || f.hasN(int64(i-len(tv))) {
 				changed = true
 			} else {
 				ns = append(ns, v)
